@@ -3,7 +3,9 @@
 package main
 
 import (
+	"encoding/json"
 	"fmt"
+	"os"
 	"strconv"
 	"strings"
 )
@@ -269,4 +271,99 @@ func c3diffField(a, b string) string {
 		}
 	}
 	return "tables-or-header"
+}
+
+// ---- shrinking of failing cases (delta debugging over profiles and samples) ----
+
+func c03HasSig(c *Ctx, cs c03Case, sig string) bool {
+	dir, err := os.MkdirTemp(c.Dir, "shrink")
+	if err != nil {
+		return false
+	}
+	defer os.RemoveAll(dir)
+	sc := &Ctx{Prop: c.Prop, Tier: c.Tier, Seed: c.Seed, Scale: c.Scale, Drv: c.Drv, Res: newResult(c.Prop), Dir: dir, Start: c.Start}
+	c03Check(sc, cs, true)
+	for _, f := range sc.Res.Findings {
+		if f.Signature == sig {
+			return true
+		}
+	}
+	return false
+}
+
+func c03Shrink(c *Ctx, cs c03Case, sig string) c03Case {
+	budget := 150
+	try := func(x c03Case) bool {
+		if budget <= 0 {
+			return false
+		}
+		budget--
+		return c03HasSig(c, x, sig)
+	}
+	mkPerm := func(n int) []int {
+		if n < 2 {
+			return nil
+		}
+		p := make([]int, n)
+		for i := range p {
+			p[i] = n - 1 - i
+		}
+		return p
+	}
+	// drop whole profiles
+	for i := 0; i < len(cs.Profiles) && len(cs.Profiles) > 1; {
+		x := cs
+		x.Profiles = append(append([]string{}, cs.Profiles[:i]...), cs.Profiles[i+1:]...)
+		x.Perm = mkPerm(len(x.Profiles))
+		if try(x) {
+			cs = x
+		} else {
+			i++
+		}
+	}
+	// drop samples
+	for pi := range cs.Profiles {
+		p, err := ParseCanon(cs.Profiles[pi])
+		if err != nil {
+			continue
+		}
+		for si := 0; si < len(p.Sample); {
+			q, _ := ParseCanon(cs.Profiles[pi])
+			q.Sample = append(q.Sample[:si:si], q.Sample[si+1:]...)
+			x := cs
+			x.Profiles = append([]string{}, cs.Profiles...)
+			x.Profiles[pi] = Canon(q)
+			if try(x) {
+				cs = x
+				p = q
+			} else {
+				si++
+			}
+		}
+	}
+	return cs
+}
+
+// c03ShrinkNew shrinks the cases of the findings reported since index from and rewrites their replay files.
+func c03ShrinkNew(c *Ctx, from int, cs c03Case) {
+	for i := from; i < len(c.Res.Findings); i++ {
+		f := c.Res.Findings[i]
+		if f.Kind != "violation" {
+			continue
+		}
+		small := c03Shrink(c, cs, f.Signature)
+		b, err := os.ReadFile(f.Replay)
+		if err != nil {
+			continue
+		}
+		var doc map[string]any
+		if json.Unmarshal(b, &doc) != nil {
+			continue
+		}
+		doc["case"] = small
+		doc["shrunk_from_bytes"] = len(strings.Join(cs.Profiles, " "))
+		if nb, err := json.MarshalIndent(doc, "", " "); err == nil {
+			os.WriteFile(f.Replay, nb, 0o644)
+		}
+	}
 }
